@@ -413,7 +413,11 @@ def h_qpe(env, fam, k, m, ukind, canary=False):
     for bits, p in sorted(probs.items()):
         env.check_eq(p, 1 if bits == want_bits else 0, f"QPE[{fam},{ukind}] probability of register outcome {bits} for phase {m}/2^{k}")
     env.check_eq(solver.energy_estimation(want_bits), want_m / 2 ** k, "QPESolver.energy_estimation(bits of m) == m/2^k")
-    if not canary and len(basis) == 1 and isinstance(basis[0], list):
+    if hasattr(solver.unitary, "qubit_indices") and ukind.startswith("trotter"):
+        sq, anc = solver.unitary.qubit_indices()
+        env.check_same((sorted(sq), list(anc)), (list(range(n_state)), []),
+                       "the unitary reports qubits 0 .. (highest index of H) as its state register (idle qubits included), no ancilla")
+    if not canary and isinstance(basis[0], list):
         # auxiliary concrete end-to-end run through the installed simulator (floats)
         from tangelo.linq import Circuit, Gate
         ref = Circuit([Gate("X", q) for q, b in enumerate(format(basis[0].index(1), f"0{n_state}b")) if b == "1"], n_qubits=n_state)
